@@ -7,7 +7,7 @@
    the path is a well-formed iterator into r; [pos r p] is the index in the listing of the element it designates. *)
 From Coq Require Import ZArith List Bool Arith.
 From Zix Require Import BTreeSpec BTreeModel BTreeProofsBase BTreeProofsIter BTreeProofsFind BTreeProofsRemove
-  BTreeProofsHist.
+  BTreeProofsMisc BTreeProofsHist.
 Import ListNotations.
 
 (* lower_bound with a search comparator ck (ck x = compare_key(x, key)) whose answers are monotone along the
@@ -110,6 +110,25 @@ Theorem iter_equals_iff_same_position :
     (iter_equals a b = true <-> iter_pos r a = iter_pos r b).
 Proof. exact iter_equals_iff_same_position. Qed.
 Print Assumptions iter_equals_iff_same_position.
+
+(* ZixBTreeIter.indexes[] are uint16_t.  Every configuration the sources accept has LEAF_VALS <= 65535
+   (static_assert(ZIX_BTREE_LEAF_VALS <= UINT16_MAX), fix 627c158; the check verifies that a larger page size no longer
+   compiles), and every frame of a valid iterator is at most LEAF_VALS (a value index < n_vals, a child index <= n_vals
+   <= max(L, I) = L; the transient frames of lower_bound/remove are <= n_vals as well), so storing a frame index in
+   16 bits never changes it: the model's untruncated index paths are exact. *)
+Theorem iter_indexes_fit_uint16 :
+  forall (elt : Type) (rank : elt -> Z) (dflt : elt) (L I : nat), I = L / 2 -> 3 <= I -> (Z.of_nat L <= 65535)%Z ->
+  forall (r : node elt) (p : list nat), shape_ok L I r -> valid r p ->
+    Forall (fun i => i <= L /\ (Z.of_nat i mod 65536 = Z.of_nat i)%Z) p.
+Proof.
+  intros elt rank dflt L I HI HI3 HL r p Hs Hv.
+  pose proof (valid_index_bound elt rank dflt L I HI HI3 r p Hs Hv) as H.
+  eapply Forall_impl; [|exact H]. intros i Hi. split; [exact Hi|].
+  apply Z.mod_small. split; [apply Nat2Z.is_nonneg|].
+  apply Z.le_lt_trans with (m := Z.of_nat L); [apply Nat2Z.inj_le; exact Hi|].
+  apply Z.le_lt_trans with (m := 65535%Z); [exact HL|reflexivity].
+Qed.
+Print Assumptions iter_indexes_fit_uint16.
 
 (* non-vacuity: the configurations of the four page sizes meet the hypotheses, and a tree of height 2 at page
    size 64 on which lower_bound of an absent key past the end of the first leaf climbs to the separator *)
